@@ -317,10 +317,8 @@ class World:
         self.boot_t = 0.0
         self.last_change_t = 0.0
         self.next_t = 0.0
-        self.last_kind = None
         self.iter_mark = (-1, None)
         self.players = 0
-        self.last_coin_iter = None
         self.ever_free_boot = False
         self.disk = {}
         self.last_upg = 0
@@ -833,7 +831,8 @@ class World:
         now = sim.now
         keys = [(c["type"], None)] + ([(c["type"], c["label"])] if c["label"] else [])
         for k in keys:
-            L.coin_audit.setdefault(k, self.read_audit(k) if k not in L.coin_audit else L.coin_audit[k])
+            if k not in L.coin_audit:
+                L.coin_audit[k] = self.read_audit(k)      # baseline (0, or what an earlier boot persisted)
         before_aud = {k: self.read_audit(k) for k in keys}
         self.cause.append(["coin", i, [], self.units()])
         sim.hit_switch(c["sw"], 1)
@@ -856,10 +855,8 @@ class World:
                 self.V("coin_gain", "free play", "coin %s in free play: balance %s -> %s, audited=%s" %
                        (v, L.B, obs, counted))
                 return
-            credited = True
         else:
             allowed = {o[0] for o in outs.values()}
-            upg = self.upg()
             obs = self.sut_balance()
             if obs not in allowed:
                 base = v / L.P
@@ -988,7 +985,6 @@ class World:
             sim.post("earnings_reset")
         elif kind == "wait":
             pass
-        self.last_kind = kind
         ctx.state(min(int(L.B * 2), 12), L.free, L.game_active, self.players if L.game_active else 0, kind)
 
     # -- driver -------------------------------------------------------------------------------------------------
